@@ -12,6 +12,10 @@ from . import env
 from .model import Model, pick, mkref, OWNED, LINKLISTS
 
 
+class LookupMismatch(Exception):
+    """raised by the read-only 'lookup' operation when a by-name look-up disagrees with the linked entity"""
+
+
 class Refused(Exception):
     """the model says this call must be refused (exception class names allowed)"""
 
@@ -314,6 +318,15 @@ def impl_apply(s, op, h=None):
             da[tuple(op[3])] = op[4]
         elif op[2] == "append":
             da.append(np.array(op[3], dtype=da.dtype), axis=op[4])
+    elif kind == "lookup":
+        # read-only: a member of a link list / container addressed by NAME through the (possibly long-held) handle
+        cont = getattr(s.resolve(path, h), op[2])
+        tgt = s.resolve(op[3], None)
+        nm = tgt.name
+        got = cont[nm]
+        if got.id != tgt.id or nm not in cont or tgt.id not in cont:
+            raise LookupMismatch("%s[%r] through a held handle gives id %r, the linked entity has %r (name in: %r, id in: %r)" % (
+                op[2], nm, got.id, tgt.id, nm in cont, tgt.id in cont))
     elif kind == "pvalues":
         p = s.resolve(path, h)
         if op[2] == "set":
@@ -452,6 +465,11 @@ def model_apply(m, op):
             a = np.concatenate([a, np.array(op[3], dtype=a.dtype)], axis=op[4])
         da["%raw"] = arr_tree(a)
         recalc(da)
+    elif kind == "lookup":
+        obj = m.resolve(path)
+        tgt = m.resolve(op[3])
+        if not any(r_["$ref"] == tgt["id"]["$id"] for r_ in obj[op[2]]):
+            raise ValueError("lookup of an entity that is not linked: %r" % (op,))
     elif kind == "pvalues":
         p = m.resolve(path)
         if op[2] == "set":
